@@ -117,6 +117,8 @@ def seeded_cache(ctx):
             s1, s2 = l1, 31
         else:
             s1, s2 = min(31, l1 + rng.randrange(1, 32)), rng.randrange(32)
+        if (s1, s2) < (l1, l2):
+            continue                 # (L1 = 31 has no later L1) the cached seed must cover the clock position, else the DC is asked
         ns = ticks_to_ns(((l0 * 32 + l1) * 32 + l2) * B + rng.randrange(B))
         if ns < 0:
             continue
